@@ -404,8 +404,10 @@ func c24(r *vkit.Run) {
 	r.SetRule("byte streams of 1-4 pipelined requests fed to bfe_http.ReadRequest + Body read-to-end in scripted fragments (whole / byte-wise / one cut / random segments; body reads of 1..8192 bytes), compared request by request with ref/http1 (strict RFC 7230; tolerant re-parse only for classes with an RFC-sanctioned or literal reading). " +
 		"(a) deterministic corpus of ~60 heads (>=1 per class) each followed by a valid request, whole, byte-wise and cut at every byte boundary; " +
 		"(b) grammar-based generator (methods incl. all tchar, 10 target shapes, HTTP/1.0|1.1, 0-4 benign fields with odd-but-legal names/values incl. 4.5 kB values, none|Content-Length|chunked bodies, bodies that look like requests) with 0-2 smuggling combinators per request: TE name/value variants, two TE/CL lines, CL value variants, TE+CL, TE on 1.0, bare LF, odd name bytes, empty name/no colon, folds, whitespace(-only) lines incl. directly after the request-line, request-line variants, Host count, stray CR/CTL in values, broken header end, wrong body length; optional byte-level mutation or truncation. " +
+		"(c) chunked-framing corpus: ~250 chunked bodies with one hostile framing line each (chunk-size of 1..20 digits zero-padded / 2^(4k)+5 / around 2^31, 2^32, 2^63, 2^64, 2^64+5; hex case; 0x, sign, empty, whitespace, junk; chunk-ext incl. quoted CRLF and BWS; bare LF / CR / CRCRLF size-line ends; missing and half-right CRLF after chunk-data; last-chunk 0/00/16 zeros/17+ zeros/0;ext; trailers valid, oversized, with Content-Length / Transfer-Encoding / Host / a request-line inside, malformed; final CRLF variants) x {TE: chunked, TE+CL} x {GET | POST-CL,GET | GET,POST-CL,GET | nothing} pipelined behind it, whole, byte-wise and cut at every byte of the body; " +
+		"(d) generated chunked-framing streams: 1-3 chunks (data that looks like last-chunk + request), 0-2 of the ~60 named framing shapes (counted as chunk_shape:*, each must occur and be reached by the reference), head in {TE chunked, TE+CL, odd TE values, two TE lines, TE name variants, TE on 1.0, CL-only over a chunked-looking body}, 0-3 pipelined follow-ups (GET, POST with Content-Length, chunked POST), optional byte mutation. " +
 		"Non-trivial: the reference got past >=1 header line of some request (accepted, or rejected beyond offset 0 for a grammar reason). Distinct = stream bytes. " +
-		"Not alarmed (counted lenient_but_consistent): bare LF, obs-fold, repeated equal Content-Length, TE overriding CL, TE on HTTP/1.0, Host count, odd bytes in values/request-line when bfe's framing and field names equal the tolerant reading. Chunk-grammar deviations inside bodies are C23's subject and are skipped here.")
+		"Not alarmed (counted lenient_but_consistent): bare LF, obs-fold, repeated equal Content-Length, TE overriding CL, TE on HTTP/1.0, Host count, odd bytes in values/request-line when bfe's framing and field names equal the tolerant reading. Chunk-grammar deviations in a body that bfe accepts are violations under the class name C23 uses, except the leniencies C23 has on record as known findings (SP/HTAB after chunk-size; bare LF, stray CR/CTL, obs-fold, empty-name in trailers) and C23's excluded corner (BWS in chunk-ext), for which bfe must frame the request exactly as the tolerant reading does (counted c23_recorded_leniency:*).")
 	r.Assume("ref/http1, ref/chunked, ref/httpfield are correct (self-tested at start on RFC-derived cases); request-target syntax is not part of the comparison beyond equality of the raw bytes; bfe's maxUriBytes = 8192 as in the default server config")
 	if r.Replay != "" {
 		var w c24Witness
@@ -435,6 +437,9 @@ func c24(r *vkit.Run) {
 	}
 	r.Count("corpus_streams", int64(len(c24Corpus)))
 
+	// (c) chunked-framing corpus
+	c24ChunkCorpusRun(r)
+
 	// (b) generated streams
 	ns := r.N(50000, 2000000)
 	vkit.Parallel(ns, 0, func(i int) {
@@ -463,6 +468,9 @@ func c24(r *vkit.Run) {
 		}
 		c24Stream(r, stream, randCuts(g, len(stream)), readSizes[g.Intn(len(readSizes))])
 	})
+	// (d) generated chunked-framing streams
+	c24ChunkGenRun(r)
+
 	for _, need := range []string{"agree_accept", "agree_accept:none", "agree_accept:content-length", "agree_accept:chunked", "both_reject"} {
 		if r.Counter(need) == 0 {
 			r.Inconclusive("outcome never observed: " + need)
